@@ -8,9 +8,9 @@ import vlib
 META = {
     "property_id": "C16",
     "level": "proof",
-    "technique": "Coq theorems over a hand-written recogniser of the env-template pattern (accepts exactly the documented grammar, rejects every string that is not template-shaped), the three-way resolution, and its composition with the dimension resolution of C03 + two translator ties (the pattern literal read with regexp/syntax = the regular expression whose language is proved to be the matcher's; MatchAndResolve regenerated as Gallina = the three-way resolution) + in-kernel correspondence with the real gconfig on generated templates/near-misses placed in C03 documents under set / set-empty / unset environments",
+    "technique": "Coq theorems over a hand-written recogniser of the env-template pattern (accepts exactly the documented grammar, rejects every string that is not template-shaped), the three-way resolution, and its composition with the dimension resolution of C03 + two translator ties (the pattern literal read with regexp/syntax = the regular expression whose language is proved to be the matcher's; MatchAndResolve and parseTemplatedElements regenerated as Gallina = the three-way resolution and the template pass subst) + in-kernel correspondence with the real gconfig on generated templates/near-misses placed in C03 documents under set / set-empty / unset environments",
     "design_ref": "DESIGN.md §4 C16",
-    "level_text": "Proof: TmplProofs.v characterises the language of the hand-written matcher match_env (mirror of the anchored pattern in yaml_templates.go): it accepts a string iff the string is `${{` ws `env:` ws NAME ws [`|`] ws [DEFAULT] ws `}}` and returns the maximal NAME and the trimmed DEFAULT; every string of the documented grammar (any name in [A-Za-z0-9_]+, any default, any inner spacing) yields exactly (name, default); strings with leading/trailing text, single braces or without `env:` are rejected and left untouched; resolution is value-if-set (even empty), else default with surrounding double quotes stripped, else an error; and loading = template pass over the *resolved* document of C03, so a template in an unselected branch can never fail loading (Props/C16.v, closed under the global context); the language of the matcher is proved equal to the language of the source's regular expression under the textbook matching relation. Tied to the source (T) by xlate_tmplre (pattern literal -> regular-expression term, Tie_C16: gen_pattern = hand_pattern) and xlate_gconf -set templates (MatchAndResolve -> Gallina, Tie_C16_resolve), and (C) by loading generated documents through the public API and judging each observation inside Coq.",
+    "level_text": "Proof: TmplProofs.v characterises the language of the hand-written matcher match_env (mirror of the anchored pattern in yaml_templates.go): it accepts a string iff the string is `${{` ws `env:` ws NAME ws [`|`] ws [DEFAULT] ws `}}` and returns the maximal NAME and the trimmed DEFAULT; every string of the documented grammar (any name in [A-Za-z0-9_]+, any default, any inner spacing) yields exactly (name, default); strings with leading/trailing text, single braces or without `env:` are rejected and left untouched; resolution is value-if-set (even empty), else default with surrounding double quotes stripped, else an error; and loading = template pass over the *resolved* document of C03, so a template in an unselected branch can never fail loading (Props/C16.v, closed under the global context); the language of the matcher is proved equal to the language of the source's regular expression under the textbook matching relation. Tied to the source (T) by xlate_tmplre (pattern literal -> regular-expression term, Tie_C16: gen_pattern = hand_pattern) and xlate_gconf -set templates (MatchAndResolve and parseTemplatedElements -> Gallina, Tie_C16_resolve: regenerated = resolve_str; subst satisfies the recursion equation of parseTemplatedElements), and (C) by loading generated documents through the public API and judging each observation inside Coq.",
     "level_note": "Trusted: Coq 8.16.1 kernel + vm_compute; Go's regexp engine implements the pattern as the hand-written recogniser does (validated by the correspondence run, not proved); fidelity of TmplModel.v/GConfModel.v (correspondence); yaml.v3 round trip; os.LookupEnv recorded per case. No axioms.",
     "allowed_axioms": [],
 }
@@ -80,57 +80,40 @@ def run(ctx):
     ctx.assumptions = [
         "the environment does not change between FromBytes' lookups of one load (recorded once per case)",
         "documents as in C03 (trees, string keys); templates only at scalar positions (map values, list items)"]
-    ctx.obligations_or_violation()
+    d = gl.Deferred(ctx)
+    d.obligations()
     binp = gl.build(ctx, "c16", judge="TmplJudge")
     if not binp:
         return
-    tie = translator_tie(ctx)
+    translator_tie(ctx, d)
     quick = ctx.tier == "quick"
-    runs = [("corpus", ["-mode", "corpus"]),
-            ("matcher", ["-mode", "matcher", "-n", 400 if quick else 20000]),
-            ("docs", ["-mode", "docs", "-n", 350 if quick else 8000]),
-            ("ood", ["-mode", "ood", "-n", 60 if quick else 1500])]
+
+    def runs_for(f):
+        return [("matcher", ["-mode", "matcher", "-n", (400 if quick else 20000) * f]),
+                ("docs", ["-mode", "docs", "-n", (350 if quick else 8000) * f]),
+                ("ood", ["-mode", "ood", "-n", (60 if quick else 1500) * f])]
+    runs = [("corpus", ["-mode", "corpus"])] + runs_for(1)
     cr = gl.corpus_run(ctx, "C16")
     if cr:
         runs.insert(1, cr)
     ctx.log("harness built")
-    terms, jsons, err = vlib.harness_cases(ctx, binp, runs)
-    ctx.log("harness ran: %d cases" % len(jsons))
-    if err:
-        ctx.report({"unchecked": "harness run", "detail": err}, {"kind": "harness"}, failing_input=False)
-        return
-    bad, nt, err = ctx.judge_cases(HEADER, CASE, JUDGE, terms, shard=60 if quick else 250,
-                                   nontrivial="c16_nontrivial")
-    if err:
-        ctx.report({"unchecked": "in-kernel evaluation of the correspondence", "detail": err},
-                   {"kind": "coq_eval"}, failing_input=False)
-        return
-    info = 0
-    bad = gl.spread(bad, lambda b: (b[1], shape(jsons[b[0]])))
-    for i, code in bad:
-        j = jsons[i]
+
+    def classify(j, code):
         if code == 3 or j["kind"] == "ood":
-            info += 1     # outside the property's generator space: reported, never gating
-            continue
-        if code == 4:
-            ctx.report({"unchecked": "generator's by-construction expectation = load_full_spec",
-                        "case": view(j)}, {"kind": "oracle"}, failing_input=False)
-            continue
-        if ctx.nreplay < 3:
-            sh = shape(j)
-            _, mj = gl.minimise(ctx, binp, HEADER, CASE, JUDGE, to_input(j), code, variants, size,
-                                keep=lambda c: shape(c) == sh)
-            if mj is not None:
-                mj["kind"] = j["kind"] + "/minimised"
-                j = mj
-        rep = {"case": view(j), "input": to_input(j),
-               "verdict": {1: "observation violates the template specification (load_full_spec)",
-                           2: "observation differs from the Coq model of MatchAndResolve/parseTemplatedElements"}[code],
-               "replay_cmd": "./check C16 --replay <this file>"}
-        ctx.report(rep, features(j), failing_input=(code == 1))
-    pend = getattr(ctx, "pending_tie_report", None)
-    if pend and not any(c == 1 and jsons[i]["kind"] != "ood" for i, c in bad):
-        ctx.report(pend[0], pend[1], failing_input=False)
+            return "info"      # outside the property's generator space: counted, never gating
+        return {1: "fail", 2: "model", 4: "oracle"}.get(code, "model")
+    res = gl.correspondence(ctx, d, binp, {
+        "header": HEADER, "case_type": CASE, "judge": JUDGE, "nontrivial": "c16_nontrivial",
+        "runs": runs, "widen": runs_for, "shard": 60 if quick else 250, "classify": classify,
+        "shape": shape, "features": features, "view": view, "to_input": to_input,
+        "variants": variants, "size": size, "minimise": lambda j: True,
+        "verdict": lambda code: {1: "observation violates the template specification (load_full_spec)",
+                                 2: "observation differs from the Coq model of MatchAndResolve/parseTemplatedElements",
+                                 4: "generator's by-construction expectation differs from load_full_spec"}[code],
+    })
+    if res is None:
+        return
+    terms, jsons, bad, nt, info, widened = res
     strs = [s for j in jsons for s in strings_of(j["doc"])]
     tmpl = [s for s in strs if s.startswith("${")]
     ctx.cov.update({
@@ -150,13 +133,14 @@ def run(ctx):
         "out_of_domain_differences": info,
         "exhaustive": False,
         "samples": [view(j) for j in jsons[1:3] + jsons[-3:-1]],
-        "disagreements": len([1 for i, c in bad if c != 3 and jsons[i]["kind"] != "ood"]),
+        "disagreements": len([1 for i, c in bad if classify(jsons[i], c) != "info"]),
     })
-    ctx.log("correspondence: %d cases (%d non-trivial), %d lookups, %d template-like strings, %d disagreement(s), %d out-of-domain difference(s)" % (
-        len(jsons), nt, ctx.cov["lookups_compared"], len(set(tmpl)), ctx.cov["disagreements"], info))
+    ctx.log("correspondence: %d cases (%d non-trivial), %d lookups, %d template-like strings, %d disagreement(s), %d out-of-domain difference(s)%s" % (
+        len(jsons), nt, ctx.cov["lookups_compared"], len(set(tmpl)), ctx.cov["disagreements"], info,
+        "; widened run: %d cases, %d verdict-1" % (widened["cases"], widened["verdict_1"]) if widened else ""))
 
 
-def translator_tie(ctx):
+def translator_tie(ctx, d):
     """(T) two ties, both regenerated from gconfig/yaml_templates.go of the current tree:
     Tie_C16 — the pattern literal as a regular-expression term (gen_pattern = hand_pattern,
     gen_anchored = true and their consequences); Tie_C16_resolve — MatchAndResolve translated to
@@ -179,12 +163,11 @@ def translator_tie(ctx):
             g = os.path.join(ctx.gen, n)
             if os.path.isfile(g):
                 gens[n] = open(g).read()[-1500:]
-        ctx.pending_tie_report = (
-            {"unchecked": "translator tie " + ", ".join(t for t, o in (("Tie_C16 (the regular expression)", ok1),
-                                                                      ("Tie_C16_resolve (MatchAndResolve)", ok2)) if not o)
-                          + ": gconfig/yaml_templates.go is no longer what the theorems are about",
-             "generated": gens, "detail": ((d1 if not ok1 else "") + "\n" + (d2 if not ok2 else ""))[-3000:]},
-            {"kind": "translator_tie"})
+        d.add({"unchecked": "translator tie " + ", ".join(t for t, o in (("Tie_C16 (the regular expression)", ok1),
+                                                                       ("Tie_C16_resolve (MatchAndResolve)", ok2)) if not o)
+                            + ": gconfig/yaml_templates.go is no longer what the theorems are about",
+               "generated": gens, "detail": ((d1 if not ok1 else "") + "\n" + (d2 if not ok2 else ""))[-3000:]},
+              {"kind": "translator_tie"})
     return ok1 and ok2
 
 
